@@ -196,7 +196,15 @@ MayRefuse(ev, pre) ==
   \/ ev.op = "find_layers" /\ ~pre.hast.groups
   \/ ev.op = "metarize" /\ (~pre.has[F(ev.arg)] \/ (ev.arg = "groups" /\ pre.hast.layers))
   \/ ev.op = "metar_msg" /\ ~pre.hast[ev.arg]
+(* a refused call must leave the accounting of the hits as it was: judged on the state it leaves behind *)
+AccountingFails(post) ==
+  UNION { IF post.hast[w] /\ post.has[F(w)]
+          THEN Chk("C05_TableMatchesIds", C05_TableMatchesIds(post.tbl[w], post.ids[F(w)], post.nrep[w])) \cup
+               Chk("C05_PartitionOne", C05_PartitionOne(post.data, post.ids[F(w)]))
+          ELSE {} : w \in W } \cup
+  (IF post.has.g /\ post.has.l /\ post.hast.layers THEN Chk("C05_LayerInOneGroup", C05_LayerInOneGroup(post.ids)) ELSE {})
 ExcFails(ev, pre, post, tr) ==
+  (IF tr.light \/ ev.op \in {"construct", "run_api"} THEN {} ELSE AccountingFails(post)) \cup
   Chk("C08_OnlyAmpycloudError", ev.exc = "AmpycloudError") \cup
   Chk("C14_RefusedIntact", ev.op \in {"construct", "run_api"} \/ tr.light \/ StateIntact(pre, post)) \cup
   Chk("C14_RefusalJustified", ev.op \in {"construct", "run_api"} \/ tr.light \/ MayRefuse(ev, pre)) \cup
